@@ -25,6 +25,8 @@ mut('C15','PRESERVING-write-with-newline','%sdoc.rs'%L, '            writeln!(wr
 mut('C12','binding-hashmap','%ssoap/binding/mod.rs'%L, 'BTreeMap', 'HashMap', count=0)
 mut('C12','message-hashmap','%ssoap/message.rs'%L, 'BTreeMap', 'HashMap', count=0)
 mut('C12','no-flag-reset','zeep-lib/src/reader.rs', '            file.processed.store(false, std::sync::atomic::Ordering::SeqCst);\n', '            let _ = file;\n')
+mut('C12','timestamp-in-header','%sfile_header.rs'%L, '        write!(writer, "{HEADER}")?;', '        write!(writer, "{HEADER}")?;\n        let now = std::time::SystemTime::now().duration_since(std::time::UNIX_EPOCH).map_or(0, |d| d.as_secs());\n        writeln!(writer, "// generated at {} (day {})", now / 3600 * 3600, now / 86400)?;')
+mut('C12','pid-in-header','%sfile_header.rs'%L, '        write!(writer, "{HEADER}")?;', '        write!(writer, "{HEADER}")?;\n        writeln!(writer, "// generator process {}", std::process::id())?;')
 mut('C12','PRESERVING-port-hashmap(keyed access only)','%ssoap/port.rs'%L, 'BTreeMap', 'HashMap', count=0, expect='silent')
 # ---- C16
 H='%shelpers_content.rs'%L
